@@ -526,7 +526,9 @@ def st_tables(max_models=3, max_chains=3, max_residues=5, max_atoms=8, altlocs=T
                     residues.append((ch, num, icode, other, record, names2, "B"))
         atoms = []
         GRID = 40
-        origin = draw(st.sampled_from([(0.0, 0.0, 0.0), (0.0, 0.0, 0.0), (-939.0, 12.0, 500.0), (930.0, -960.0, -30.0)]))
+        # (the last two: coordinates of four digits before the point, which fill the eight PDB columns exactly)
+        origin = draw(st.sampled_from([(0.0, 0.0, 0.0), (0.0, 0.0, 0.0), (-939.0, 12.0, 500.0), (930.0, -960.0, -30.0),
+                                       (1234.0, 5000.0, 9900.0), (9950.0, -30.0, 2500.0)]))
         off = st.integers(-250, 250).map(lambda v: v / 1000.0)
         for m in range(1, nmodels + 1):
             # serial numbers over the whole 5-column range (5-digit serials fill the field next to the record name)
